@@ -120,7 +120,7 @@ class Scheduler:
             self.real.join(2.0)
 
 
-def run_session(pcfg, plan, save_dir, load_config=None, limit=None):
+def run_session(pcfg, plan, save_dir, load_config=None, limit=None, storm=False):
     """One run of the real CrackingSession under schedule [plan].
     Returns dict(out=[guesses], pops=[pt_items], saves=n, save_config, omen_exit, omen_guess_num, steps)."""
     import lib_guesser.cracking_session as cs
@@ -136,9 +136,20 @@ def run_session(pcfg, plan, save_dir, load_config=None, limit=None):
                 pops.append(it)
             return it
 
+    foreign = []
+    main_thread = _threading.current_thread()
+
     def collect(g):
+        if _threading.current_thread() is not main_thread:
+            foreign.append(g)       # something printed a "guess" from the keyboard thread
+            return
         out.append(g)
         sch.at_step()
+
+    # storm mode: guesses go through the REAL print_guess to a buffer installed as sys.stdout, while a second
+    # thread requests status reports back to back (what keypress does for every [ENTER]) - true concurrency
+    storm_buf = io.StringIO()
+    storm_stop = []
 
     save_filename = os.path.join(save_dir, "sess.sav")
     pcfg.save_file = save_filename
@@ -162,10 +173,13 @@ def run_session(pcfg, plan, save_dir, load_config=None, limit=None):
 
     class BrokenReport:
         def __init__(self, rep):
-            self._rep = rep
+            object.__setattr__(self, "_rep", rep)
 
         def __getattr__(self, k):
             return getattr(self._rep, k)
+
+        def __setattr__(self, k, v):
+            setattr(self._rep, k, v)     # the loop's `self.report.pt_item = ...` must reach the real report
 
         def print_status(self, p):
             if sch.break_stderr:
@@ -189,17 +203,38 @@ def run_session(pcfg, plan, save_dir, load_config=None, limit=None):
         cs.time = types.SimpleNamespace(sleep=lambda s: None)
         cs.input = sch.fake_input
         cs.PcfgQueue = SchedQueue
-        pcfg.print_guess = collect
+        if not storm:
+            pcfg.print_guess = collect
         err = io.StringIO()
-        with contextlib.redirect_stderr(err), contextlib.redirect_stdout(io.StringIO()) as so:
+        with contextlib.redirect_stderr(err), contextlib.redirect_stdout(storm_buf if storm else io.StringIO()) as so:
             old_hook = _threading.excepthook
             _threading.excepthook = lambda a: None
+            st = None
+            old_si = sys.getswitchinterval()
+            if storm:
+                def hammer():
+                    while not storm_stop:
+                        try:
+                            session.report.print_status(pcfg)
+                        except Exception:
+                            pass
+                sys.setswitchinterval(1e-5)
+                st = _threading.Thread(target=hammer, daemon=True)
+                st.start()
             try:
                 session.run(load_session=load_config is not None, limit=limit)
             finally:
+                storm_stop.append(1)
+                if st is not None:
+                    st.join(5.0)
+                sys.setswitchinterval(old_si)
                 sch.finish()
                 _threading.excepthook = old_hook
-        stray_stdout = so.getvalue()
+        if storm:
+            out.extend(storm_buf.getvalue().split("\n")[:-1])
+            stray_stdout = ""
+        else:
+            stray_stdout = so.getvalue()
     finally:
         for k, v in saved_attrs.items():
             setattr(cs, k, v)
@@ -207,6 +242,6 @@ def run_session(pcfg, plan, save_dir, load_config=None, limit=None):
             cs.__dict__.pop("input", None)
         pcfg.print_guess = old_print
         mcmod.MarkovCracker.save_session = orig_omen_save
-    return {"omen_saves": omen_saves, "out": out, "pops": pops, "saves": saves, "save_config": cfg, "omen_exit": pcfg.omen_exit,
+    return {"omen_saves": omen_saves, "foreign": foreign, "out": out, "pops": pops, "saves": saves, "save_config": cfg, "omen_exit": pcfg.omen_exit,
             "omen_guess_num": pcfg.omen_guess_num, "steps": sch.step, "stray_stdout": stray_stdout,
             "save_filename": save_filename}
